@@ -6,17 +6,19 @@ import PyYetiVerif.Lemmas.Op4AsciiHalf
 /-!
 # C04 — OUTPUT4 write followed by read is the identity
 
-Property theorems only (helper lemmas live in `Lemmas/Op4.lean`).  The model
-`PyYetiVerif.Op4` (Model/Op4.lean) is tied to pyyeti/nastran/op4.py by the constants translator
-(`Generated/Op4Consts.lean`) and by exact correspondence of written bytes / text, decoded values
-and listings (harness/props/c04.py).
+Property theorems only (helper lemmas live in `Lemmas/Op4*.lean`).  The models — `PyYetiVerif.Op4`
+(Model/Op4.lean: both writers, the binary reader, `%E`) and `PyYetiVerif.Op4A` (Model/Op4Ascii.lean:
+the ASCII reader) — are tied to pyyeti/nastran/op4.py by the constants translator
+(`Generated/Op4Consts.lean`) and by exact correspondence of written bytes / text, decoded values,
+listings, single fields and blocks (harness/props/c04.py).
 
 Reading of the property.  A column of a matrix is a `List Entry`; an element is a pair of IEEE bit
-patterns.  "Identical values" is `canonCol`: what was written comes back bit for bit, except that an
-element equal to zero (`±0.0`, both parts for complex) that lies outside every written string
-comes back as `+0.0`, and a real matrix has no imaginary part.  The theorems are at the level of
-the 32-bit word stream of one column record (either byte order); `bytes_roundtrip` and
-`double_words_roundtrip` carry this down to bytes.
+patterns.  "Identical values" for binary is `decCol`/`canonCol`: what was written comes back bit for
+bit, except that an element equal to zero (`±0.0`, both parts for complex) that lies outside every
+written string comes back as `+0.0`, and a real matrix has no imaginary part.  The column theorems are
+at the level of the 32-bit word stream of one column record (either byte order), `file_roundtrip_binary`
+at the level of the word stream of a file, `file_roundtrip_bytes` at the level of bytes with names and
+format detection.  For ASCII see the second half of the file.
 
 The two places where the unchanged code does **not** satisfy the property are explicit:
 * `pack_fits_i32`: the packed nonbigmat string header fits `struct.pack('i', …)` iff
